@@ -19,12 +19,15 @@ OBVIOUS_REDIRECTS_RE = re.compile(
     re.I | ASCII,
 )
 # NOTE: a host can come with a port, and is case-insensitive
+# NOTE: over ascii letters only ("/c/\u017f/", with a long s, is not "/c/s/")
 REDIRECTION_DOMAINS_RE = re.compile(
     r"(?:\.ampproject\.org(?::\d*)?/[cv]/(?:s/)?|bc\.marfeelcache\.com(?::\d*)?/amp/|bc\.marfeel\.com(?::\d*)?/)",
-    re.I,
+    re.I | ASCII,
 )
 GOOGLE_URL_RE = re.compile(r"/url\?(?:[^#]*&)?q=")
-YOUTUBE_REDIRECT_RE = re.compile(r"youtube\.com(?::\d*)?/redirect\?", re.I)
+YOUTUBE_REDIRECT_RE = re.compile(
+    r"youtube\.com(?::\d*)?/redirect\?", re.I | ASCII
+)
 
 
 def infer_one_redirection(url):
